@@ -4,7 +4,7 @@ sys.path.insert(0, os.path.join(os.path.dirname(os.path.abspath(__file__)), ".."
 import vf
 
 PID = "C06"
-WLS = ["pytree", "array", "calls", "question", "nested"]
+WLS = ["pytree", "array", "calls", "question", "nested", "toplevel", "toplevel"]
 
 
 def gen_schedule(rng, nthreads, length=900):
@@ -20,7 +20,7 @@ def main():
     n = 6000 if R.thorough else 70
     scheds = []
     # systematic: one thread runs k steps, then the other runs to completion, then the first finishes (a preemption at every accessor boundary of the first ~120 lines)
-    for a, b in (("pytree", "array"), ("array", "pytree"), ("calls", "question"), ("question", "array"), ("pytree", "question"), ("array", "nested"), ("nested", "calls")):
+    for a, b in (("pytree", "array"), ("array", "pytree"), ("calls", "question"), ("question", "array"), ("pytree", "question"), ("array", "nested"), ("nested", "calls"), ("toplevel", "toplevel"), ("toplevel", "calls")):
         for k in range(0, 130, 6 if not R.thorough else 1):
             scheds.append([[a, b], [0] * k + [1] * 2000])
     for _ in range(n):
@@ -55,7 +55,7 @@ def main():
                     {"theorem_file": "coq/props/C06.v", "log": R.broken_proof}, no_input=not any(v["kind"] == "property" for v in R.violations))
     R.coverage.update(evaluations=len(scheds), distinct_nontrivial=len(nontriv), samples=samples, yield_points_total=steps,
                       rule="controlled schedules on the real code: worker threads run under sys.settrace and park at EVERY line executed inside jaxtyping/_storage.py, _array_types.py, _pytree_type.py, _decorator.py; a scheduler thread picks who runs next. "
-                           "%d systematic schedules (thread A runs k yield points, B runs to completion, A finishes; k = 0..129) over 7 workload pairs + %d PRNG schedules of 2-3 threads; workloads: PyTree checks with registered nodes and '?' axes, array checks incl. wrong dtype and rollback after partial progress, decorated calls (accepting and rejecting), top-level stateless checks. "
+                           "%d systematic schedules (thread A runs k yield points, B runs to completion, A finishes; k = 0..129) over 9 workload pairs + %d PRNG schedules of 2-3 threads; workloads: PyTree checks with registered nodes and '?' axes, array checks incl. wrong dtype and rollback after partial progress, decorated calls (accepting and rejecting), top-level stateless checks. "
                            "Oracle: per-thread transcript (verdicts, print_bindings) == the same workload run alone." % (len(scheds) - n, n))
     R.assumptions += ["a context switch inside a single bytecode / inside C code cannot be forced by this scheduler", "threading.local() semantics are CPython's"]
     sys.exit(R.finish())
